@@ -46,6 +46,9 @@ func HashName(label string, ha uint8, iter uint16, salt string) string {
 // Cover returns true if a name is covered by the NSEC3 record.
 func (rr *NSEC3) Cover(name string) bool {
 	nameHash := HashName(name, rr.Hash, rr.Iterations, rr.Salt)
+	if nameHash == "" { // unknown hash algorithm, or not a name: nothing is covered
+		return false
+	}
 	owner := strings.ToUpper(rr.Hdr.Name)
 	labelIndices := Split(owner)
 	if len(labelIndices) < 2 {
